@@ -121,8 +121,8 @@ MUTANTS.append({'prop': 'C05', 'name': 'ssa-update-before-record', 'kind': 'fire
      'new': "            if Lambda > 0 and reaction_fired:\n                reaction_choice = cyrandom.sample_discrete(num_reactions, <double*> c_propensity.data , Lambda)\n                for species_index in range(num_species):\n                    c_current_state[species_index] += c_stoich[species_index,reaction_choice]\n            # Update previous states\n            while current_index"},
     {'file': S, 'old': "            # Choose a reaction and update the state accordingly.\n            if Lambda > 0 and reaction_fired:", 'new': "            if False:"}]})
 M('C05', 'ssa-lambda-short', S,
-  "Lambda = cyrandom.array_sum(<double*> (c_propensity.data), num_reactions)\n\n            # Either we are going to move to the next queued time, or we move to the next reaction time.\n            if Lambda == 0:\n                proposed_time = c_timepoints[current_index]\n                reaction_fired = 0\n                rule_step = 1\n                move_to_queued_time = 1",
-  "Lambda = cyrandom.array_sum(<double*> (c_propensity.data), num_reactions-1)\n\n            # Either we are going to move to the next queued time, or we move to the next reaction time.\n            if Lambda == 0:\n                proposed_time = c_timepoints[current_index]\n                reaction_fired = 0\n                rule_step = 1\n                move_to_queued_time = 1",
+  "Lambda = cyrandom.array_sum(<double*> (c_propensity.data), num_reactions)\n\n            # Either we are going to move to the next queued time, or we move to the next reaction time.\n            if Lambda == 0:\n                # nothing can fire",
+  "Lambda = cyrandom.array_sum(<double*> (c_propensity.data), num_reactions-1)\n\n            # Either we are going to move to the next queued time, or we move to the next reaction time.\n            if Lambda == 0:\n                # nothing can fire",
   'fire', 'R5.2-lambda/VolumeSSASimulator')
 M('C05', 'ssa-event-carried-to-grid', S,
   """            if proposed_time > c_timepoints[current_index]:
